@@ -196,7 +196,7 @@ def gen_plan(rng, tier, i):
             r["name"] = r["name"] or "SAT " + str(r["norad"])
             if child.random() < 0.2:
                 # an object known by its designation, or whose name starts with the digit of a line number (without being a TLE line)
-                r["name"] = child.choice(["2019-012B", "1998-067C", "1KUNS-PF", "2001 DEB", "1999-025DZZ", "21 LUTETIA", "FENGYUN 1C DEB #1204", "SAT #2 (50% FUEL)", "OBJECT A # B"])  # (a comment mark elsewhere than in first position belongs to the name)
+                r["name"] = child.choice(["2019-012B", "1998-067C", "1KUNS-PF", "2001 DEB", "1999-025DZZ", "21 LUTETIA", "FENGYUN 1C DEB #1204", "SAT #2 (50% FUEL)", "OBJECT A # B", "COSMOS 2251  DEB", "DELTA 1 R/B   (2)", "ATLAS\tCENTAUR"])  # (a comment mark elsewhere than in first position belongs to the name)
     ops = []
     # which entries get the exhaustive per-entry enumeration
     for k in rng.sample(range(n), n if tier == "thorough" else min(2, n)):  # thorough: the fault space of every entry
